@@ -2,4 +2,4 @@
    Proofs_geom (direction / cylinder / bench test, exchange of the samples, translation of one pair), Proofs_vg (variogram,
    one pair), Proofs_main (whole data set: pairwise sums, permutation, translation), Proofs_out (reported vectors),
    Proofs_misc (sqrt enclosure, symmetry in the variables, generic form), Proofs_cov (covariance). *)
-From Gst Require Export C12.Proofs_enum C12.Proofs_lag C12.Proofs_acc C12.Proofs_geom C12.Proofs_vg C12.Proofs_main C12.Proofs_out C12.Proofs_misc C12.Proofs_cov.
+From Gst Require Export C12.Proofs_enum C12.Proofs_lag C12.Proofs_acc C12.Proofs_geom C12.Proofs_vg C12.Proofs_main C12.Proofs_out C12.Proofs_misc C12.Proofs_cov C12.Proofs_bysample.
